@@ -289,9 +289,12 @@ static void *history_thread(void *arg)
 static int nth;
 static struct probe tprobe[3];
 
+static uint64_t draw_order; /* which thread made which raw draw: the interleaving actually executed */
+
 static void pre_hook(void)
 {
     vxs_point("raw-draw");
+    draw_order = vx_mix(draw_order, (uint64_t)vxs_self());
 }
 
 static void *sched_body(void *a)
@@ -307,6 +310,7 @@ static void *sched_body(void *a)
 static void run_threads(void)
 {
     vxs_begin();
+    draw_order = 0;
     int tid[3];
     for (int k = 0; k < nth; k++) {
         tid[k] = vxs_spawn(NULL, sched_body, (void *)(long)k);
@@ -324,8 +328,8 @@ static void run_threads(void)
             break;
         }
     }
-    vx_outcome(h);
-    vx_state(vx_mix(h, (uint64_t)vxs_preemptions()));
+    vx_outcome(vx_mix(h, draw_order));
+    vx_state(vx_mix(h, draw_order));
 }
 
 /* ------------------------------------------------------------------ free-running (for ThreadSanitizer) */
